@@ -32,7 +32,7 @@ SHARD_WATCHDOG = {"quick": 1500, "thorough": 10800}
 
 
 def gen_cases(tier, seed):
-    k = 1 if tier == "quick" else 25
+    k = 1 if tier == "quick" else 250
     cases = [{"kind": "nomod", "sampler": s, "i": i, "seed": seed} for i in range(6 * k) for s in G.SAMPLER_KINDS]
     cases += [{"kind": "stub", "i": i, "seed": seed} for i in range(40 * k)]
     cases += [{"kind": "real", "sampler": s, "i": i, "seed": seed} for i in range(6 * k) for s in ("RandomForest", "XGBoost", "GaussianProcess")]
